@@ -1,5 +1,5 @@
 (* C04 - property theorems only (proofs in C04/Invariant.v, C04/StoreLaws.v, C04/MechLaws.v).
-   Spec = the shared reference interpreter (Lang.Sem: every store goes through [coerce]);
+   Spec = the shared reference interpreter (Lang.Sem: every store, global initialisers included, goes through [coerce]);
    Mech = today's store paths of /repo (C04/Model.v, table re-extracted into C04/Gen_RangeTable.v). *)
 From Coq Require Import List ZArith Bool Arith.
 From Cb Require Import Lang.Syntax Lang.Sem Lang.Respect Lang.Theorems Lang.Print
@@ -47,33 +47,20 @@ Theorem store_inv_step : forall funcs n,
 Proof. exact store_inv_step_l. Qed.
 Print Assumptions store_inv_step.
 
-(* every program, every fuel: the run ends (normally, by an error or out of fuel) in a state whose
-   cells all hold values of their types - provided the global initialisers did ... *)
-Theorem store_inv_run : forall fuel p, globals_in_range p ->
-  wf_state (final_state fuel p) /\ fst (run fuel p) = rev (sout (final_state fuel p)).
-Proof. intros fuel p H. split; [exact (store_inv_run_l fuel p H)|exact (run_final fuel p)]. Qed.
+(* every program, every fuel: either a global initialiser is rejected (they are converted like every
+   other store) and nothing runs, or the run starts in a well-formed state and ends - normally, by an
+   error or out of fuel - in a well-formed state, whose output is what [run] reports *)
+Theorem store_inv_run : forall fuel p,
+  match init_state p with
+  | None => final_state fuel p = None /\ run fuel p = ([], Failed ERange)
+  | Some s0 => wf_state s0 /\ exists s, final_state fuel p = Some s /\ wf_state s /\ fst (run fuel p) = rev (sout s)
+  end.
+Proof. exact store_inv_run_l. Qed.
 Print Assumptions store_inv_run.
 
-(* ... and with the checked start-up (global initialisers converted like every other store) for
-   every program without any proviso: either an initialiser is rejected and nothing runs, or the
-   run is Ref's run on the converted initialisers and ends well-formed *)
-Theorem store_inv_run_checked : forall fuel p,
-  (exists e, check_globals (pglobals p) = Fail e /\ run_c04 fuel p = ([], Failed e)) \/
-  (exists gs, check_globals (pglobals p) = Val gs /\ wf_state (final_state fuel (with_globals p gs)) /\
-              run_c04 fuel p = run fuel (with_globals p gs)).
-Proof. exact store_inv_run_checked_full_l. Qed.
-Print Assumptions store_inv_run_checked.
-
-(* the checked start-up changes nothing for programs whose initialisers are in range *)
-Theorem run_c04_agrees_with_ref : forall fuel p,
-  Forall (fun g => Forall (fun v => in_range (gty g) v = true /\ (uns (gty g) = true -> 0 <= v)) (ginit g)) (pglobals p) ->
-  run_c04 fuel p = run fuel p.
-Proof. exact run_c04_agrees_l. Qed.
-Print Assumptions run_c04_agrees_with_ref.
-
 Theorem global_initialiser_out_of_range_is_error : forall fuel p g v,
-  In g (pglobals p) -> In v (ginit g) -> coerce (gty g) v = Fail ERange -> run_c04 fuel p = ([], Failed ERange).
-Proof. exact run_c04_rejects_l. Qed.
+  In g (pglobals p) -> In v (ginit g) -> coerce (gty g) v = Fail ERange -> run fuel p = ([], Failed ERange).
+Proof. exact run_rejects_l. Qed.
 Print Assumptions global_initialiser_out_of_range_is_error.
 
 (* in a well-formed state every read yields a value of the declared type of what is read; every
@@ -195,9 +182,9 @@ Theorem static_unsigned_clamps_refuted :     (* static unsigned tiny s = -1;  ke
 Proof. exact static_unsigned_clamps_refuted_l. Qed.
 Print Assumptions static_unsigned_clamps_refuted.
 
-Theorem bare_multidim_value_is_checked_refuted : (* tiny t = 0; t = m[1][1];  with m[1][1] = -129 *)
-  mech_store PAssignFromElemN tiny (-129) = Val (-129) /\ mech_store PAssignFromElemN tint 4294967296 = Val 4294967296 /\
-  mech_store PAssignFromElemN tiny 128 = Fail ERange /\ coerce tiny (-129) = Fail ERange /\ coerce tint 4294967296 = Fail ERange.
+Theorem bare_multidim_value_is_checked_refuted : (* int q = 0; q = m[1][1];  with m[1][1] = 4294967296 *)
+  mech_store PAssignFromElemN tint 4294967296 = Val 4294967296 /\ coerce tint 4294967296 = Fail ERange /\
+  mech_store PAssignFromElemN tiny (-129) = Fail ERange /\ mech_store PAssignFromElemN tiny 128 = Fail ERange.
 Proof. exact bare_multidim_value_is_checked_refuted_l. Qed.
 Print Assumptions bare_multidim_value_is_checked_refuted.
 
@@ -211,9 +198,10 @@ Example sample_store :
                          SPrint true [EVar 1%nat];
                          SIncDec false false (LVar 1%nat);
                          SPrint true [EVar 1%nat] ] |} in
-  run_c04 100 p = ([OInt 127; OSp; OInt 0; ONl; OInt (-128); ONl], Failed ERange).
+  run 100 p = ([OInt 127; OSp; OInt 0; ONl; OInt (-128); ONl], Failed ERange).
 Proof. vm_compute. reflexivity. Qed.
 
-Example sample_wf : wf_state (final_state 50 {| pglobals := []; pfuncs := [];
-   pmain := [ SArr false utiny 1%nat [2%nat; 2%nat] [ENum 255; ENum (-3)]; SAssign (LIdx 1%nat [ENum 1; ENum 1]) None (ENum 256) ] |}).
-Proof. apply store_inv_run_l. constructor. Qed.
+Example sample_wf : exists s, final_state 50 {| pglobals := []; pfuncs := [];
+   pmain := [ SArr false utiny 1%nat [2%nat; 2%nat] [ENum 255; ENum (-3)]; SAssign (LIdx 1%nat [ENum 1; ENum 1]) None (ENum 256) ] |} = Some s
+   /\ wf_state s.
+Proof. eexists. split; [reflexivity|]. apply store_inv_list. repeat split; cbn; repeat constructor. Qed.
